@@ -238,6 +238,52 @@ theorem minor_light_time_structure (body : MinorBody) (jde : ℝ) (v1 rr1 : ℝ)
   simp only [Except.ok.injEq] at hout
   rw [← hout]
 
+/-! ## Identities between two of the library's own formulas; the parabolic branch -/
+
+/-- The "correction to the FK5 system" inside `<Planet>.geocentric_position` is the SAME formula as the one in
+    `geometric_vsop_pos` (Coordinates.py), evaluated at the shifted epoch, the geocentric longitude and the
+    heliocentric latitude IN RADIANS (`tan(b.rad())`): for every epoch, longitude and latitude the two pairs
+    `(Δλ, Δβ)` coincide.  Hence the size bounds of `C07.fk5_size` hold for the geocentric correction as well;
+    a latitude passed in degrees (or any other slip in one of the two copies) falsifies this. -/
+theorem planet_fk5_is_vsop_fk5 (ep lamb b : ℝ) :
+    geo_fk5_deltas ((ep - 2451545.0) / 36525.0) lamb b = fk5_deltas ep lamb b := by
+  have e : ∀ t : ℝ, t * (1.397 + t * 0.00031) = t * (1.397 + 0.00031 * t) := fun t => by ring
+  simp only [geo_fk5_deltas, fk5_deltas, e]
+
+/-- The parabolic branch of `Minor.geocentric_position` (Barker's equation): whenever it returns, the true
+    anomaly is `2·atan(s)` in DEGREES, strictly between −180° and 180° (never "normalised" by a turn), and the
+    radius vector is `q (1 + s²) ≥ q`, for one and the same real `s`. -/
+theorem minor_parabolic_value (body : MinorBody) (t_peri v rr : ℝ)
+    (h : minor_parabolic body t_peri = .ok (v, rr)) :
+    ∃ s : ℝ, v = 2 * Real.arctan s * (180 / Real.pi) ∧ rr = body.q * (1 + s ^ 2) ∧ -180 < v ∧ v < 180 ∧
+      (0 ≤ body.q → body.q ≤ rr) := by
+  unfold minor_parabolic at h
+  simp only [] at h
+  split_ifs at h
+  split at h
+  · cases h
+  · rename_i s hs
+    simp only [Except.ok.injEq, Prod.mk.injEq] at h
+    obtain ⟨hv, hr⟩ := h
+    have hpi := Real.pi_pos
+    have h1 := Real.arctan_lt_pi_div_two s
+    have h2 := Real.neg_pi_div_two_lt_arctan s
+    have e2 : (2.0 : ℝ) = 2 := by norm_num
+    have e1 : (1.0 : ℝ) = 1 := by norm_num
+    have hd : pdegrees (2.0 * patan s) = 2 * Real.arctan s * (180 / Real.pi) := by
+      simp only [pdegrees, patan, e2]
+    have hlt : |pdegrees (2.0 * patan s)| < 180 := by
+      rw [hd, abs_lt]
+      have hk : (0 : ℝ) < 180 / Real.pi := by positivity
+      have hk2 : Real.pi * (180 / Real.pi) = 180 := by field_simp
+      constructor <;> nlinarith
+    have hval : v = 2 * Real.arctan s * (180 / Real.pi) := by
+      rw [← hv, angOfRad, angReduce_small _ (lt_trans hlt (by norm_num)), hd]
+    refine ⟨s, hval, by rw [← hr, e1]; ring, ?_, ?_, ?_⟩
+    · rw [hval, ← hd]; exact (abs_lt.mp hlt).1
+    · rw [hval, ← hd]; exact (abs_lt.mp hlt).2
+    · intro hq; rw [← hr, e1]; nlinarith [sq_nonneg s, mul_self_nonneg s]
+
 /-! ## Planets: light-time structure -/
 
 /-- "the vector from the Earth's heliocentric position at the epoch to the body's heliocentric position
